@@ -108,6 +108,9 @@ def plan(tier, seed):
             sh.append({"kind": "explore", "pairs": pairs[i::n], "gran": "instr", "tier": tier, "_name": f"explore-instr-{i}"})
     for i in range(2 if tier == "quick" else 6):
         sh.append({"kind": "stress", "part": i, "tier": tier, "inject": tier == "thorough" and i % 2 == 1, "_name": f"stress-{i}"})
+    types = [("valid", "valid"), ("valid", "twin"), ("generate", "valid"), ("valid", "generate"), ("generate", "generate"), ("twin", "valid")]
+    for i in range(3 if tier == "quick" else 6):
+        sh.append({"kind": "fresh", "type_pairs": types[i::3] if tier == "quick" else [types[i]], "tier": tier, "_name": f"fresh-explore-{i}"})
     sh.append({"kind": "solo", "tier": tier, "_name": "solo"})
     for i in range(sz["cold"]):
         sh.append({"kind": "cold", "part": i, "tier": tier, "_name": f"cold-{i}"})
@@ -285,7 +288,138 @@ def run_stress(shard, mon, S, p):
     after = solo_digests(S, p, ids)
     if after != want:
         mon.inconclusive.append("solo outcomes before and after the stress run differ")
+    fresh_stress(shard, mon, S)
     mon.sample({"stress": mon.notes["stress"], "example_call": p[ids[0]]})
+
+
+def run_fresh_explore(shard, mon, S, p):
+    """Single-preemption exploration of pairs whose inputs are new at every schedule (so that bounded caches
+    keep inserting and evicting); oracle = the reference models (R-IBAN / R-GEN), not a solo run."""
+    from vf import gen as G_  # noqa: PLC0415
+    from vf.mon.sched import Scheduler  # noqa: PLC0415
+    from vf.ref import data as D_  # noqa: PLC0415
+    from vf.ref import generate as RG_  # noqa: PLC0415
+    from vf.ref import iban as R_  # noqa: PLC0415
+
+    table = D_.countries()
+    cs = sorted(table)
+    rng = env.rng("C14", shard["_name"])
+    gen_cs = [c for c in ("BE", "DE", "PT", "NL", "SI", "FR") if c in table]
+
+    def make(kind):
+        """(thunk, checker) for one fresh input."""
+        if kind == "valid":
+            cc = rng.choice(cs)
+            t = R_.make_iban(cc, G_.random_bban(table[cc], rng))
+            return (lambda: calls.execute(S, {"fn": "iban", "text": t, "kw": {}})), (lambda out: out[0] == "ok" and out[1]["str"] == t), t
+        if kind == "twin":
+            cc = rng.choice(cs)
+            t = R_.make_iban(cc, G_.random_bban(table[cc], rng))
+            d = int(t[2:4])
+            t = t[:2] + f"{rng.choice([x for x in range(100) if x != d]):02d}" + t[4:]
+            return (lambda: calls.execute(S, {"fn": "iban_is_valid", "text": t})), (lambda out: out == ["ok", False]), t
+        cc = rng.choice(gen_cs)
+        pos = D_.positions(table[cc])
+        bank = "".join(rng.choice(R_.DIGITS) for _ in range(pos["bank_code"][1] - pos["bank_code"][0])) if cc != "NL" else "".join(rng.choice(R_.UPPER) for _ in range(4))
+        acct = "".join(rng.choice(R_.DIGITS) for _ in range(rng.randint(1, pos["account_code"][1] - pos["account_code"][0])))
+        exp = RG_.expect_generate(cc, bank, acct, "", table)
+        d = {"fn": "generate", "country": cc, "bank": bank, "account": acct}
+        if exp.kind == "return":
+            return (lambda: calls.execute(S, d)), (lambda out: out[0] == "ok" and out[1]["str"] == exp.iban), d
+        return (lambda: calls.execute(S, d)), (lambda out: True), d
+
+    sched = Scheduler(env.PKG, "line")
+    sched.install()
+    reps = 5 if shard["tier"] == "quick" else 60
+    try:
+        for ka, kb in shard["type_pairs"]:
+            for _ in range(reps):
+                ta, ca, ia = make(ka)
+                tb, cb, ib = make(kb)
+                base = sched.run([ta, tb], first=0)
+                na, nb = base["steps"]
+                for first, n_first in ((0, na), (1, nb)):
+                    for k in range(1, n_first + 1):
+                        for _f in range(rng.randrange(3)):
+                            make("valid")[0]()  # filler: moves cache fill levels between schedules
+                        ta, ca, ia = make(ka)
+                        tb, cb, ib = make(kb)
+                        r = sched.run([ta, tb], first=first, preempt={(first, k)})
+                        mon.ev()
+                        mon.tally("schedules_fresh_inputs")
+                        mon.distinct(("fresh-explore", shard["_name"], ka, kb, first, k, _))
+                        if r["hung"]:
+                            mon.inconclusive.append("fresh-input schedule hung")
+                            continue
+                        for w_, (out, chk, inp) in enumerate(zip(r["results"], (ca, cb), (ia, ib))):
+                            if not chk(out):
+                                mon.viol("concurrent_outcome_differs_from_reference:fresh_inputs:" + (ka, kb)[w_], {"input": inp, "other_input": (ib, ia)[w_], "schedule": {"first": first, "preempt": [[first, k]]}},
+                                         "reference outcome", json.dumps(out, default=str)[:300])
+            mon.tally("fresh_type_pairs")
+    finally:
+        sched.uninstall()
+    mon.sample({"fresh_input_pair_types": shard["type_pairs"], "repetitions": reps})
+
+
+def fresh_stress(shard, mon, S):
+    """Streams of never-seen-before inputs from several threads (bounded caches fill up and evict): every
+    reference-valid IBAN must be accepted, its wrong-check-digit twin rejected with a library error, generated
+    IBANs must carry the reference digits."""
+    from vf import gen as G_  # noqa: PLC0415
+    from vf.ref import data as D_  # noqa: PLC0415
+    from vf.ref import iban as R_  # noqa: PLC0415
+
+    table = D_.countries()
+    cs = sorted(table)
+    n_threads = 8
+    per = 400 if shard["tier"] == "quick" else 20000
+    bad: list = []
+    done = [0] * n_threads
+    old = sys.getswitchinterval()
+    sys.setswitchinterval(1e-6)
+    start = threading.Barrier(n_threads)
+
+    def body(t):
+        r = random.Random(f"fresh/{env.seed()}/{shard['part']}/{t}")
+        start.wait()
+        for _ in range(per):
+            cc = r.choice(cs)
+            b = G_.random_bban(table[cc], r)
+            good = R_.make_iban(cc, b)
+            d0 = int(good[2:4])
+            twin = good[:2] + f"{r.choice([x for x in range(100) if x != d0]):02d}" + good[4:]
+            for text, want_ok in ((good, True), (twin, False)):
+                try:
+                    S.IBAN(text)
+                    ok = True
+                    err = None
+                except Exception as e:  # noqa: BLE001
+                    ok = False
+                    err = e
+                done[t] += 1
+                if ok != want_ok or (err is not None and not judge.is_lib_exc(err)):
+                    bad.append((text, want_ok, repr(err)[:120]))
+            try:
+                got = str(S.IBAN.from_bban(cc, b))
+                if got != good:
+                    bad.append((f"from_bban({cc},{b})", good, got))
+            except Exception as e:  # noqa: BLE001
+                bad.append((f"from_bban({cc},{b})", good, repr(e)[:120]))
+            done[t] += 1
+
+    ts = [threading.Thread(target=body, args=(t,), daemon=True) for t in range(n_threads)]
+    for t in ts:
+        t.start()
+    for t in ts:
+        t.join(1200)
+    sys.setswitchinterval(old)
+    mon.ev(sum(done))
+    mon.tally("fresh_input_stress_calls", sum(done))
+    for t in range(n_threads):
+        for k in range(0, done[t], 40):
+            mon.distinct(("fresh", shard["part"], t, k))
+    for text, want, got in bad[:4]:
+        mon.viol("concurrent_outcome_differs_from_solo:stress:fresh_inputs", {"input": text, "threads": n_threads}, want, got)
 
 
 COLD_FNS = ("bic", "iban", "from_bank_code", "iban_lookup", "random", "generate", "bic_lookup", "candidates", "algo")
@@ -416,7 +550,7 @@ def run_shard(shard, out_base):
     mon = Mon("C14")
     S = judge.lib()
     p = the_pool(shard["tier"], shard.get("pool_file"))
-    {"explore": run_explore, "stress": run_stress, "cold": run_cold, "solo": run_solo, "coldsched": run_coldsched}[shard["kind"]](shard, mon, S, p)
+    {"explore": run_explore, "stress": run_stress, "cold": run_cold, "solo": run_solo, "coldsched": run_coldsched, "fresh": run_fresh_explore}[shard["kind"]](shard, mon, S, p)
     return mon.result(out_base)
 
 
